@@ -639,28 +639,52 @@ def replay_c08(kind, r, p, ts, what):
 
 
 # ------------------------------------------------------------------------------------------------ C15
-def run_c15(rep, tier, seed):
-    from stereomolgraph.experimental import JSONHandler
-
+def c15_sequence(tier, seed):
+    """the graphs serialised by run_c15, in order (deterministic in tier and seed)"""
     rng = random.Random(seed + 15)
-    distinct = 0
     for kind in KINDS:
-        G = {n: Group(rep, f"C15/bounded/{kind}/{n}") for n in ("round-trip-views-identical", "round-trip-equal-and-same-hash")}
         for rep_i in range(1 if tier == "quick" else 4):
             for name, ref0 in corpus(kind, seed + rep_i):
                 for weird in (False, True):
-                    ref = ref0.relabel(random_renaming(ref0, rng).get) if weird and ref0.atoms else ref0
-                    distinct += 1
-                    g = build_real(ref)
-                    h, err = safe(lambda: JSONHandler.json_deserialize(JSONHandler.json_serialize(g)))
-                    body = (f"from stereomolgraph.experimental import JSONHandler\ng = build_real({ref_code(ref)})\n"
-                            f"try:\n    h = JSONHandler.json_deserialize(JSONHandler.json_serialize(g)); ok = type(h) is type(g) and snapshot(h).canon() == snapshot(g).canon()\n"
-                            f"    print(snapshot(h).canon()); print(snapshot(g).canon())\nexcept Exception as e:\n    print('raised', type(e).__name__, e); ok = False\n")
-                    okv = not err and type(h) is type(g) and snapshot(h).canon() == ref.canon()
-                    G["round-trip-views-identical"].case(okv, f"{name}: JSON round trip -> {err or snapshot(h).canon()} expected {ref.canon()}", body, sample=ref.describe())
-                    if okv and ref.atoms:
-                        eq, e2 = safe(lambda: (h == g) and hash(h) == hash(g))
-                        G["round-trip-equal-and-same-hash"].case(eq is True, f"{name}: deserialised graph not equal / hash differs: {e2 or eq}", body)
-        for g_ in G.values():
-            g_.close()
+                    yield kind, name, (ref0.relabel(random_renaming(ref0, rng).get) if weird and ref0.atoms else ref0)
+
+
+def c15_case(ref):
+    from stereomolgraph.experimental import JSONHandler
+
+    g = build_real(ref)
+    h, err = safe(lambda: JSONHandler.json_deserialize(JSONHandler.json_serialize(g)))
+    okv = not err and type(h) is type(g) and snapshot(h).canon() == ref.canon()
+    eq = None
+    if okv and ref.atoms:
+        eq, e2 = safe(lambda: (h == g) and hash(h) == hash(g))
+        eq = eq is True
+    return okv, eq, (err or (snapshot(h).canon() if h is not None else None))
+
+
+def replay_c15_sequence(tier, seed, index, what):
+    """the serialiser is exercised on the same graphs in the same order as the check did (a defect may depend on what was
+    serialised earlier in the process), the verdict is that of the index-th graph"""
+    for i, (kind, name, ref) in enumerate(c15_sequence(tier, seed)):
+        okv, eq, got = c15_case(ref)
+        if i == index:
+            print(kind, name, got, "expected", ref.canon())
+            return okv if what == "views" else (eq is not False)
+    return True
+
+
+def run_c15(rep, tier, seed):
+    distinct = 0
+    G = {}
+    for i, (kind, name, ref) in enumerate(c15_sequence(tier, seed)):
+        for n in ("round-trip-views-identical", "round-trip-equal-and-same-hash"):
+            G.setdefault((kind, n), Group(rep, f"C15/bounded/{kind}/{n}"))
+        distinct += 1
+        okv, eq, got = c15_case(ref)
+        body = f"from vf.e3.derive import replay_c15_sequence\nok = replay_c15_sequence({tier!r}, {seed!r}, {i}, %r)\n"
+        G[(kind, "round-trip-views-identical")].case(okv, f"{name}: JSON round trip -> {got} expected {ref.canon()}", body % "views", sample=ref.describe())
+        if eq is not None:
+            G[(kind, "round-trip-equal-and-same-hash")].case(eq, f"{name}: deserialised graph not equal / hash differs", body % "eqhash")
+    for g_ in G.values():
+        g_.close()
     rep.distinct_nontrivial = distinct
